@@ -1093,14 +1093,15 @@ pub fn run(spec: &Arc<Spec>, exec: &Exec, ro: &RunOpts) -> Trace {
             drop_panicked = true;
         }
     }
-    rec::in_call(false);
     ledger.closed.store(true, Relaxed);
     let s_dropped = rec::stamp();
     let sched_fp = rec::schedule_fingerprint();
+    // The hang detector stays armed while the remaining handles are dropped.
     drop(built);
     vh::clear_deferred();
     let inits = sh.inits.iter().map(|a| a.load(Relaxed)).collect();
     drop(sh);
+    rec::in_call(false);
     let threads_after = if cfg!(miri) { 0 } else { rec::thread_count() };
     let events = rec::take_events();
     Trace {
